@@ -23,6 +23,19 @@ const DESCS: &[&str] = &[
     "#region x", "--[[ y ]]", "]] z", "- item\n- item2", "--- triple", "名前 unicode 😀", "nul\u{0}char", "", " ", "\n", "@",
     "@param", "ends with backslash \\", "quote \" and ' inside", "tab\tinside", "\u{2028}sep", "@type string|", "```lua\nlocal x\n```",
 ];
+/// pieces for composed descriptions / titles: blanks, control characters, doc-significant characters, words
+const BLANKS: &[&str] = &[" ", "  ", "\t", " \t "];
+const CTRLS: &[&str] = &[
+    "\u{1}", "\u{2}", "\u{7}", "\u{8}", "\u{b}", "\u{c}", "\u{e}", "\u{1b}", "\u{1f}", "\u{7f}", "\u{85}", "\u{9f}", "\u{2028}", "\u{2029}", "\u{0}",
+    "\u{a0}", "\u{feff}",
+];
+const SIGNIF: &[&str] = &[
+    "@", "@field x", "@class Y", "@see", "@alias", "@param", "@type string|", "---", "---@field z string", "--", "|", "| foo", "|+", "#", "# x", "`",
+    "`T`", "\\", "\\@", "\"", "'", "[", "]]", "--[[", "?", ">", "<",
+];
+const WORDS2: &[&str] = &["text", "Section one.", "mail me", "see", "x"];
+const BREAKS: &[&str] = &["\n", "\n", "\r", "\r\n", "\n\n"];
+
 const PRIMS: &[&str] = &["string", "integer", "number", "boolean", "null", "object", "array", "weird", ""];
 
 struct Gen {
@@ -36,6 +49,10 @@ impl Gen {
         *self.stats.entry(k).or_insert(0) += 1;
     }
     fn name(&mut self, odd_pct: usize) -> String {
+        if self.rng.chance(odd_pct, 400) {
+            self.hit("composed_name");
+            return self.composed_text();
+        }
         if self.rng.chance(odd_pct, 100) {
             self.hit("odd_name");
             let a = self.rng.pick(ODD).to_string();
@@ -44,12 +61,44 @@ impl Gen {
             self.rng.pick(PLAIN).to_string()
         }
     }
+    /// one line made of blanks, control characters, doc-significant characters and words in any order
+    fn composed_line(&mut self) -> String {
+        let n = self.rng.below(5);
+        let mut s = String::new();
+        for _ in 0..n {
+            let piece = match self.rng.below(8) {
+                0 | 1 => *self.rng.pick(BLANKS),
+                2 | 3 => *self.rng.pick(CTRLS),
+                4 | 5 | 6 => *self.rng.pick(SIGNIF),
+                _ => *self.rng.pick(WORDS2),
+            };
+            s.push_str(piece);
+        }
+        s
+    }
+    /// several composed lines (first and continuation lines), separated by LF / CR / CRLF
+    fn composed_text(&mut self) -> String {
+        let lines = 1 + self.rng.below(3);
+        let mut s = String::new();
+        for i in 0..lines {
+            if i > 0 {
+                s.push_str(*self.rng.pick(BREAKS));
+            }
+            s.push_str(&self.composed_line());
+        }
+        s
+    }
     fn desc(&mut self) -> String {
-        if self.rng.chance(1, 2) {
-            self.hit("odd_description");
-            self.rng.pick(DESCS).to_string()
-        } else {
-            "plain description".to_string()
+        match self.rng.below(6) {
+            0 | 1 => {
+                self.hit("odd_description");
+                self.rng.pick(DESCS).to_string()
+            }
+            2 | 3 => {
+                self.hit("composed_description");
+                self.composed_text()
+            }
+            _ => "plain description".to_string(),
         }
     }
     fn maybe_desc(&mut self, m: &mut Map<String, Value>) {
@@ -261,7 +310,8 @@ impl Gen {
                 }
                 1 => {
                     self.hit("odd_title");
-                    o.insert("title".into(), json!(self.rng.pick(ODD).to_string()));
+                    let t = if self.rng.chance(1, 2) { self.rng.pick(ODD).to_string() } else { self.composed_text() };
+                    o.insert("title".into(), json!(t));
                 }
                 _ => {
                     o.insert("title".into(), json!(self.name(odd_pct)));
